@@ -141,11 +141,14 @@ structure TaintOut where
   tracker : List String
 deriving Repr, Inhabited
 
+/-- "Clamp the scale down so it doesn't drop under the min nodes". -/
+def clampRemove (untaintedLen minEff nodesToRemove : Int) : Int :=
+  if untaintedLen - nodesToRemove < minEff then untaintedLen - minEff else nodesToRemove
+
 /-- `scaleDownTaint`. -/
 def scaleDownTaint (o : Oracle) (k : Nat) (dry : Bool) (cfg : GroupCfg) (st : GState) (nowSec : Int)
     (hintOld : List Nat) (untainted : List Node) (nodesToRemove : Int) : Eff TaintOut :=
-  let n : Int := if (untainted.length : Int) - nodesToRemove < st.minEff then (untainted.length : Int) - st.minEff
-                 else nodesToRemove
+  let n : Int := clampRemove untainted.length st.minEff nodesToRemove
   if n < 0 then ⟨⟨0, true, st.taintTracker⟩, [], k⟩
   else
     let r := taintLoop o dry nowSec cfg.taintEffect k (orderBy oldestFirst hintOld untainted) n.toNat st.taintTracker
@@ -185,12 +188,16 @@ structure UpOut where
   g : PGroup
 deriving Repr, Inhabited
 
+/-- `scaleUpUntaint`. -/
+def scaleUpUntaint (o : Oracle) (k : Nat) (dry : Bool) (st : GState) (hintNew : List Nat) (tainted : List Node)
+    (want : Int) : Eff LoopOut :=
+  if tainted.isEmpty then ⟨⟨0, st.taintTracker⟩, [], k⟩
+  else untaintLoop o dry k (orderBy newestFirst hintNew tainted) want.toNat st.taintTracker
+
 /-- `ScaleUp` (untaint, then `scaleUpCloudProviderNodeGroup`, then arm the lock). -/
 def scaleUp (o : Oracle) (k : Nat) (dry : Bool) (cfg : GroupCfg) (st : GState) (g : PGroup)
     (nowReal : Int) (hintNew : List Nat) (tainted : List Node) (want : Int) : Eff UpOut :=
-  let u : Eff LoopOut :=
-    if tainted.isEmpty then ⟨⟨0, st.taintTracker⟩, [], k⟩
-    else untaintLoop o dry k (orderBy newestFirst hintNew tainted) want.toNat st.taintTracker
+  let u := scaleUpUntaint o k dry st hintNew tainted want
   let st1 := { st with taintTracker := u.val.tracker }
   let rest := want - u.val.count
   if rest > 0 then
@@ -255,6 +262,12 @@ def newNodeMetrics (o : Oracle) (k : Nat) (st : GState) (nodes : List Node) : Jo
         ⟨c, o k c != .fail⟩)
   else []
 
+/-- The two "set scale to a minimum of 1" triggers applied on top of the band decision. -/
+def applyTriggers (cfg : GroupCfg) (st : GState) (pu : PodUsage) (nc : NodeCap) (nowReal : Int)
+    (untainted tainted : List Node) (d : Int) : Int :=
+  let d1 := if isScaleOnStarve cfg st pu nc untainted.length then max d 1 else d
+  if scaleOnMaxNodeAge cfg st nowReal untainted tainted then max d1 1 else d1
+
 inductive ScanErr where
   | none
   | belowMin | aboveMax      -- node count outside [min,max]
@@ -284,16 +297,55 @@ structure Hints where
   new : List Nat
 deriving Repr, Inhabited
 
+/-- "store a cached version of node capacity": from the first listed node, before classification. -/
+def withCache (st0 : GState) (nodes : List Node) : GState :=
+  match nodes with
+  | [] => st0
+  | n :: _ => { st0 with cachedCPU := n.allocCPU, cachedMem := n.allocMem * 1000 }
+
+/-- The acting half of `scaleNodeGroup`: force reaper, then scale down / scale up / reap, for the
+    decided `delta`. `mj` is what `calculateNewNodeMetrics` journalled before. -/
+def scanAct (o : Oracle) (k : Nat) (dry : Bool) (cfg : GroupCfg) (st : GState) (g : PGroup) (pods : List Pod)
+    (h : Hints) (nowMock nowReal : Int) (untainted tainted force : List Node) (mj : Journal) (delta : Int) : Eff ScanOut :=
+  -- force reaper: its error is only logged
+  let f := tryDelete o k g (forceCands dry pods force)
+  if delta < 0 then
+    let r := tryDelete o f.k f.val.g (reaperCands dry cfg pods nowMock tainted)
+    if r.val.err = .notInGroup then
+      ⟨⟨0, .notInGroup, st, r.val.g, "down-notingroup"⟩, mj ++ f.j ++ r.j, r.k⟩
+    else
+      let t := scaleDownTaint o r.k dry cfg st (nowReal / 1000000000) h.old untainted (-delta)
+      ⟨⟨delta, .none, { st with taintTracker := t.val.tracker }, r.val.g, "down"⟩, mj ++ f.j ++ r.j ++ t.j, t.k⟩
+  else if delta > 0 then
+    let u := scaleUp o f.k dry cfg st f.val.g nowReal h.new tainted delta
+    match u.val.err with
+    | .fatal => ⟨⟨0, .fatalExit, { u.val.st with lastScaleOut := some nowReal }, u.val.g, "up-fatal"⟩, mj ++ f.j ++ u.j, u.k⟩
+    | .notInGroup => ⟨⟨0, .notInGroup, { u.val.st with lastScaleOut := some nowReal }, u.val.g, "up-notingroup"⟩, mj ++ f.j ++ u.j, u.k⟩
+    | _ => ⟨⟨delta, .none, { u.val.st with lastScaleOut := some nowReal }, u.val.g, "up"⟩, mj ++ f.j ++ u.j, u.k⟩
+  else
+    let r := tryDelete o f.k f.val.g (reaperCands dry cfg pods nowMock tainted)
+    if r.val.err = .notInGroup then
+      ⟨⟨0, .notInGroup, st, r.val.g, "reap-notingroup"⟩, mj ++ f.j ++ r.j, r.k⟩
+    else ⟨⟨delta, .none, st, r.val.g, "reap"⟩, mj ++ f.j ++ r.j, r.k⟩
+
+/-- The deciding half of `scaleNodeGroup`, once the group is known to be unlocked: new-node
+    metrics, band decision, the two triggers, then `scanAct`. -/
+def scanDecide (rnd : Rat → Rat) (o : Oracle) (k : Nat) (dry : Bool) (cfg : GroupCfg) (st : GState) (g : PGroup)
+    (pods : List Pod) (nodes : List Node) (h : Hints) (nowMock nowReal : Int) (untainted tainted force : List Node)
+    (pu : PodUsage) (nc : NodeCap) (p : Pct) : Eff ScanOut :=
+  let mj := newNodeMetrics o k st nodes
+  let d := bandDelta rnd cfg st p untainted.length pu.total.cpu (pu.total.mem * 1000)
+  if d.negErr then ⟨⟨d.delta, .negDelta, st, g, "neg-delta"⟩, mj, k⟩
+  else scanAct o k dry cfg st g pods h nowMock nowReal untainted tainted force mj
+        (applyTriggers cfg st pu nc nowReal untainted tainted d.delta)
+
 /-- `scaleNodeGroup`. `nowMock` is the stephanos clock (ns), `nowReal` the real clock (ns). -/
 def scanGroup (rnd : Rat → Rat) (o : Oracle) (k : Nat) (globalDry : Bool) (cfg : GroupCfg)
     (st0 : GState) (g : PGroup) (view : View) (h : Hints) (nowMock nowReal : Int) : Eff ScanOut :=
   let dry := globalDry || cfg.dryMode
   let pods := view.pods
   let nodes := view.nodes
-  -- cached node capacity
-  let st := match nodes with
-    | [] => st0
-    | n :: _ => { st0 with cachedCPU := n.allocCPU, cachedMem := n.allocMem * 1000 }
+  let st := withCache st0 nodes
   let untainted := nodesOf dry st .untainted nodes
   let tainted := nodesOf dry st .tainted nodes
   let force := nodesOf dry st .force nodes
@@ -307,8 +359,8 @@ def scanGroup (rnd : Rat → Rat) (o : Oracle) (k : Nat) (globalDry : Bool) (cfg
       if lockedNow st.lock cfg.coolNs nowReal then
         ⟨⟨st.lock.requested, .none, st, g, "min-locked"⟩, [], k⟩
       else
-        let st := { st with lock := lockAfterCheck st.lock cfg.coolNs nowReal }
-        let u := scaleUp o k dry cfg st g nowReal h.new tainted (st.minEff - untainted.length)
+        let u := scaleUp o k dry cfg { st with lock := lockAfterCheck st.lock cfg.coolNs nowReal } g nowReal h.new tainted
+                  (st.minEff - untainted.length)
         ⟨⟨u.val.result, actToScan u.val.err, u.val.st, u.val.g, "min-scaleup"⟩, u.j, u.k⟩
     else
       let p := calcPercent rnd pu.total.cpu (pu.total.mem * 1000) nc.total.cpu (nc.total.mem * 1000) untainted.length
@@ -316,33 +368,7 @@ def scanGroup (rnd : Rat → Rat) (o : Oracle) (k : Nat) (globalDry : Bool) (cfg
       else if lockedNow st.lock cfg.coolNs nowReal then
         ⟨⟨st.lock.requested, .none, st, g, "locked"⟩, [], k⟩
       else
-        let st := { st with lock := lockAfterCheck st.lock cfg.coolNs nowReal }
-        let mj := newNodeMetrics o k st nodes
-        let d := bandDelta rnd cfg st p untainted.length pu.total.cpu (pu.total.mem * 1000)
-        if d.negErr then ⟨⟨d.delta, .negDelta, st, g, "neg-delta"⟩, mj, k⟩
-        else
-          let d1 := if isScaleOnStarve cfg st pu nc untainted.length then max d.delta 1 else d.delta
-          let delta := if scaleOnMaxNodeAge cfg st nowReal untainted tainted then max d1 1 else d1
-          -- force reaper: its error is only logged
-          let f := tryDelete o k g (forceCands dry pods force)
-          if delta < 0 then
-            let r := tryDelete o f.k f.val.g (reaperCands dry cfg pods nowMock tainted)
-            if r.val.err = .notInGroup then
-              ⟨⟨0, .notInGroup, st, r.val.g, "down-notingroup"⟩, mj ++ f.j ++ r.j, r.k⟩
-            else
-              let t := scaleDownTaint o r.k dry cfg st (nowReal / 1000000000) h.old untainted (-delta)
-              ⟨⟨delta, .none, { st with taintTracker := t.val.tracker }, r.val.g, "down"⟩, mj ++ f.j ++ r.j ++ t.j, t.k⟩
-          else if delta > 0 then
-            let u := scaleUp o f.k dry cfg st f.val.g nowReal h.new tainted delta
-            let st' := { u.val.st with lastScaleOut := some nowReal }
-            match u.val.err with
-            | .fatal => ⟨⟨0, .fatalExit, st', u.val.g, "up-fatal"⟩, mj ++ f.j ++ u.j, u.k⟩
-            | .notInGroup => ⟨⟨0, .notInGroup, st', u.val.g, "up-notingroup"⟩, mj ++ f.j ++ u.j, u.k⟩
-            | _ => ⟨⟨delta, .none, st', u.val.g, "up"⟩, mj ++ f.j ++ u.j, u.k⟩
-          else
-            let r := tryDelete o f.k f.val.g (reaperCands dry cfg pods nowMock tainted)
-            if r.val.err = .notInGroup then
-              ⟨⟨0, .notInGroup, st, r.val.g, "reap-notingroup"⟩, mj ++ f.j ++ r.j, r.k⟩
-            else ⟨⟨delta, .none, st, r.val.g, "reap"⟩, mj ++ f.j ++ r.j, r.k⟩
+        scanDecide rnd o k dry cfg { st with lock := lockAfterCheck st.lock cfg.coolNs nowReal } g pods nodes h
+          nowMock nowReal untainted tainted force pu nc p
 
 end Esc
